@@ -156,8 +156,12 @@ def gen(rng):
     ng  = rng.choice([0, 0, 1, 2, 4, 4])
     lfs = rng.choice([0, 100]); mem = rng.choice([0, 64])
     nodes = []
+    # blocked cores / GPUs (system_architecture.blocked_cores / blocked_gpus of the platform: the resource manager marks the
+    # same indices DOWN on every node) - in four of ten pilots
+    bc = rng.sample(range(nc), rng.choice([1, 1, 2]) if nc > 2 else 1) if rng.random() < 0.4 else []
+    bg = rng.sample(range(ng), 1) if ng > 1 and rng.random() < 0.4 else []
     for i in range(nn):
-        nodes.append({'cores': [0] * nc, 'gpus': [0] * ng, 'lfs': lfs, 'mem': mem})
+        nodes.append({'cores': [None if c in bc else 0 for c in range(nc)], 'gpus': [None if g in bg else 0 for g in range(ng)], 'lfs': lfs, 'mem': mem})
     spec = {'nodes': nodes, 'cpn': nc, 'gpn': ng, 'lfs_pn': lfs, 'mem_pn': mem, 'localhost': rng.random() < 0.3}
     ops, live, hid = [], [], 0
     for _ in range(rng.randint(3, 14)):
@@ -210,6 +214,18 @@ def monitor(spec, ops, trace, props):
                             bad.append(('C01', 'nodelist:%s-held-beyond-one' % kind[:-1], 'node %d %s %d is held %d/16 by the slots granted and not released' % (ni, kind[:-1], i, o)))
                         if init[ni][kind][i] is None:
                             bad.append(('C01', 'nodelist:blocked-%s-granted' % kind[:-1], 'node %d %s %d is DOWN' % (ni, kind[:-1], i)))
+                if u['lfs'] > init[ni]['lfs'] or u['mem'] > init[ni]['mem']:
+                    pass
+        if 'C03' in props:
+            # while a request still holds (a share of) a core or GPU, that share is not offered to another request
+            for ni, u in enumerate(use):
+                for kind in ('cores', 'gpus'):
+                    for i, o in u[kind].items():
+                        if o > U and t['op'][0] == 'find':
+                            bad.append(('C03', 'nodelist:share-still-held-offered-to-another-request',
+                                        'node %d %s %d: the requests that have not released it hold %d/16 of it' % (ni, kind[:-1], i, o)))
+        if 'C01' in props:
+            for ni, u in enumerate(use):
                 if u['lfs'] > init[ni]['lfs'] or u['mem'] > init[ni]['mem']:
                     bad.append(('C01', 'nodelist:lfs-or-mem-oversubscribed', 'node %d holds lfs %d / mem %d of %d / %d' % (ni, u['lfs'], u['mem'], init[ni]['lfs'], init[ni]['mem'])))
         if 'C03' in props and t['op'][0] == 'find' and t['answer'] is None and not t['held'] and t.get('fresh') is True:
